@@ -197,14 +197,23 @@ func (s *Sem) compatible(rc RetCase, idx int, f Fact) (bool, *Fact) {
 type Prim struct {
 	Name   string
 	Direct func(f Fact) bool
+	// Rel, when set, is tried as well: it sees a fact together with a resolver that maps values of the frame the
+	// fact lives in to the frame Holds was asked in (a callee's parameters become the call's arguments), so a
+	// proposition about a caller's value can be established inside a helper the value was passed to.
+	Rel func(f Fact, resolve func(ssa.Value) ssa.Value) bool
 }
 
 // Holds: conjunction k (facts of function context) establishes p.
-func (s *Sem) Holds(k Conj, p Prim) bool { return s.holds(k, p, 0) }
+func (s *Sem) Holds(k Conj, p Prim) bool {
+	return s.holds(k, p, 0, func(v ssa.Value) ssa.Value { return Unwrap(v) })
+}
 
-func (s *Sem) holds(k Conj, p Prim, depth int) bool {
+func (s *Sem) holds(k Conj, p Prim, depth int, resolve func(ssa.Value) ssa.Value) bool {
 	for _, f := range k.List() {
-		if p.Direct(f) {
+		if p.Direct != nil && p.Direct(f) {
+			return true
+		}
+		if p.Rel != nil && p.Rel(f, resolve) {
 			return true
 		}
 	}
@@ -233,6 +242,23 @@ func (s *Sem) holds(k Conj, p Prim, depth int) bool {
 		}
 		ok := true
 		any := false
+		inner := resolve
+		if p.Rel != nil {
+			args := CallArgs(c.Common())
+			params := g.Params
+			outer := resolve
+			inner = func(v ssa.Value) ssa.Value {
+				v = Unwrap(v)
+				if pp, isP := v.(*ssa.Parameter); isP {
+					for i, q := range params {
+						if q == pp && i < len(args) {
+							return outer(args[i])
+						}
+					}
+				}
+				return v
+			}
+		}
 		for _, rc := range s.RetCases(g) {
 			comp := true
 			var extra []Fact
@@ -267,7 +293,7 @@ func (s *Sem) holds(k Conj, p Prim, depth int) bool {
 						dd = dd.With(e)
 					}
 				}
-				if !s.holds(dd, p, depth+1) {
+				if !s.holds(dd, p, depth+1, inner) {
 					ok = false
 					break
 				}
@@ -598,13 +624,13 @@ type SitePred func(st DNF, at ssa.Instruction) bool
 // enclosing function (up to depth), where roots (functions in `roots`) and functions without callers fail.
 // It returns ok and, when not ok, a description of the offending path.
 func (s *Sem) HoldsOnAllPaths(site ssa.Instruction, pred SitePred, roots map[*ssa.Function]bool, depth int) (bool, string) {
-	return s.holdsOnAllPaths(site, pred, roots, nil, depth, map[*ssa.Function]bool{})
+	return s.holdsOnAllPaths(site, pred, roots, nil, depth+s.C.DepthBonus, map[*ssa.Function]bool{})
 }
 
 // HoldsOnPathsWithin is HoldsOnAllPaths restricted to callers inside `within` (e.g. the functions reachable
 // from one route root), so that a helper shared by several routes is judged per route.
 func (s *Sem) HoldsOnPathsWithin(site ssa.Instruction, pred SitePred, roots, within map[*ssa.Function]bool, depth int) (bool, string) {
-	return s.holdsOnAllPaths(site, pred, roots, within, depth, map[*ssa.Function]bool{})
+	return s.holdsOnAllPaths(site, pred, roots, within, depth+s.C.DepthBonus, map[*ssa.Function]bool{})
 }
 
 func (s *Sem) holdsOnAllPaths(site ssa.Instruction, pred SitePred, roots, within map[*ssa.Function]bool, depth int, visiting map[*ssa.Function]bool) (bool, string) {
@@ -668,5 +694,5 @@ func KMD_IsAdminUser() string { return fnIsAdminUser }
 
 // HoldsOnPathsWithinInstr is HoldsOnPathsWithin for predicates over the site alone (e.g. "a dominating call exists").
 func (s *Sem) HoldsOnPathsWithinInstr(site ssa.Instruction, pred func(at ssa.Instruction) bool, roots, within map[*ssa.Function]bool, depth int) (bool, string) {
-	return s.holdsOnAllPaths(site, func(st DNF, at ssa.Instruction) bool { return pred(at) }, roots, within, depth, map[*ssa.Function]bool{})
+	return s.holdsOnAllPaths(site, func(st DNF, at ssa.Instruction) bool { return pred(at) }, roots, within, depth+s.C.DepthBonus, map[*ssa.Function]bool{})
 }
